@@ -10,7 +10,7 @@ TRACE = ("Trace_C13.tla", "C13_trace.cfg")
 REG = dict(category="model_checking",
     text="C13_MuSigNonce.tla models what a client holds (a pool of secnonce objects and session-randomness buffers) and one action per API call and ARGUMENT "
     "CLASS (which argument is NULL / invalid / mismatched: 9 classes of nonce_gen, 5 of nonce_gen_counter, 9 of partial_sign x every keypair incl. the "
-    "same-x-opposite-y twin). TLC explores every call sequence over the pools (BFS, complete) and checks SingleUse, NoAlias, UsedIsGone, SignOnlyLiveBound. "
+    "same-x-opposite-y twin and the same-y endomorphism image). TLC explores every call sequence over the pools (BFS, complete) and checks SingleUse, NoAlias, UsedIsGone, SignOnlyLiveBound. "
     "Every labelled transition of that state graph is replayed through the real API behind its BFS-shortest prefix (transition tour), plus all paths to depth 3 "
     "and seeded random walks; after every call the projection of the concrete state (class/id/bound key of every object, zero-ness of every buffer, return "
     "value, callback count, and which generated nonce a produced signature verifies against) must equal the specified state. The repository's own musig tests, "
